@@ -262,6 +262,13 @@ func (q *srcQuery) walk(v ssa.Value, path []int, facts []Fact, alias []ssa.Value
 				}
 			}
 			if al, ok := x.X.(*ssa.Alloc); ok && len(path) > 0 {
+				// a variable assigned once and only read afterwards (a by-value parameter that a
+				// function literal captures lives in such a cell): the value assigned
+				if ss := w.stores[w.locKey(al)]; len(ss) == 1 && ss[0].Addr == ssa.Value(al) && len(w.storesUnder(w.locKey(al))) == 0 &&
+					instrDominates(ss[0], x) && !inLoopWith(ss[0], x) && onlyReadByClosures(al) {
+					q.walk(ss[0].Val, path, facts, addAlias(alias, x), frames, where, depth+1)
+					return
+				}
 				q.reaching(al, path, x, facts, addAlias(alias, x), frames, depth)
 				return
 			}
@@ -823,4 +830,42 @@ func (q *srcQuery) why(msg string) {
 	if os.Getenv("TURNCHECK_SRCDEBUG") != "" {
 		fmt.Fprintf(os.Stderr, "   incomplete: %s\n", msg)
 	}
+}
+
+// onlyReadByClosures: the cell is stored to directly, loaded, and captured by function literals
+// that only load it (or fields of it): nothing but the stores in its own function writes it.
+func onlyReadByClosures(al *ssa.Alloc) bool {
+	var ok func(v ssa.Value, inClosure bool, d int) bool
+	ok = func(v ssa.Value, inClosure bool, d int) bool {
+		if v.Referrers() == nil || d > 4 {
+			return d <= 4
+		}
+		for _, r := range *v.Referrers() {
+			switch x := r.(type) {
+			case *ssa.UnOp, *ssa.DebugRef:
+			case *ssa.Store:
+				if x.Addr != v || inClosure {
+					return false
+				}
+			case *ssa.FieldAddr:
+				if !ok(x, true, d+1) { // a field address: loads only, wherever it is
+					return false
+				}
+			case *ssa.MakeClosure:
+				fn, _ := x.Fn.(*ssa.Function)
+				if fn == nil {
+					return false
+				}
+				for i, b := range x.Bindings {
+					if b == v && i < len(fn.FreeVars) && !ok(fn.FreeVars[i], true, d+1) {
+						return false
+					}
+				}
+			default:
+				return false
+			}
+		}
+		return true
+	}
+	return ok(al, false, 0)
 }
